@@ -198,7 +198,7 @@ func R72() Rule {
 				}
 			}
 		}
-		if n < 6 {
+		if n < 2 {
 			c.Unknown("R72", "floor/registry-lookups", token.NoPos, "only %d comma-ok lookups in the table registry found", n)
 		}
 	}}
@@ -321,22 +321,32 @@ func R73() Rule {
 						if ci == nil || ci.Static == nil {
 							continue
 						}
-						var codeArg ssa.Value
-						switch core.FuncName(ci.Static) {
-						case "(*GcsEmu).gapiError":
-							if len(ci.Common.Args) >= 3 {
-								codeArg = ci.Common.Args[2]
-							}
-						case "fmtErrorfCode":
-							if len(ci.Common.Args) >= 1 {
-								codeArg = ci.Common.Args[0]
-							}
-						}
-						if codeArg == nil || core.PkgPathOf(ci.Static) != core.PkgGcsemu {
+						if core.PkgPathOf(ci.Static) != core.PkgGcsemu {
 							continue
 						}
-						k2, isC := core.ConstInt(codeArg)
-						found = append(found, coded{ci.Instr.Pos(), k2, isC})
+						if codeArg := codedArg(ci); codeArg != nil {
+							k2, isC := core.ConstInt(codeArg)
+							found = append(found, coded{ci.Instr.Pos(), k2, isC})
+							continue
+						}
+						// a responder helper (`g.respondNotFound(w, bucket, name)`): the constant codes it answers with
+						if ci.Static.Blocks != nil && ci.Static.Parent() == nil {
+							for _, f := range P.Scope(ci.Static, func(f *ssa.Function) bool { return core.PkgPathOf(f) != core.PkgGcsemu }) {
+								if core.FuncName(f) == "(*GcsEmu).gapiError" || core.FuncName(f) == "fmtErrorfCode" {
+									continue
+								}
+								for _, c2 := range core.AllCalls(f) {
+									if c2.Static == nil || core.PkgPathOf(c2.Static) != core.PkgGcsemu {
+										continue
+									}
+									if a := codedArg(c2); a != nil {
+										if k2, isC := core.ConstInt(a); isC {
+											found = append(found, coded{ci.Instr.Pos(), k2, true})
+										}
+									}
+								}
+							}
+						}
 					}
 				}
 				if len(found) == 0 {
@@ -360,8 +370,23 @@ func R73() Rule {
 				}
 			}
 		}
-		if n < 4 {
-			c.Unknown("R73", "floor/not-found-branches", token.NoPos, "only %d not-found branches with a coded response found", n)
+		if n < 1 {
+			c.Unknown("R73", "floor/not-found-branches", token.NoPos, "no not-found branch with a coded response found")
 		}
 	}}
+}
+
+// codedArg: the status-code argument of the two functions that build coded errors / error responses.
+func codedArg(ci *core.CallInfo) ssa.Value {
+	switch core.FuncName(ci.Static) {
+	case "(*GcsEmu).gapiError":
+		if len(ci.Common.Args) >= 3 {
+			return ci.Common.Args[2]
+		}
+	case "fmtErrorfCode":
+		if len(ci.Common.Args) >= 1 {
+			return ci.Common.Args[0]
+		}
+	}
+	return nil
 }
